@@ -239,35 +239,172 @@ theorem quiet_routeLateStmt (st : St) (l r k0 k : String) :
 theorem quiet_closeTxn' (st st' : St) (h : st'.lis = st.lis) : Quiet st.lis (closeTxn st').1.lis := by
   rw [← h]; exact quiet_closeTxn st'
 
-attribute [local irreducible] closeTxn St.inTxn defStmt unlistenStmt sampleStmt forceStmt sloopCloseStmt
-  cloopCloseStmt lazyFoldStmt switchLateStmt switchLateCStmt lateListenStmt handlerListenStmt lateHoldStmt
-  lateLoopStmt routeLateStmt runItems runOne
+/-! ### the body of `stmt` for single statement kinds (`unfold stmt; rfl` on the concrete words) -/
 
-syntax "quiet_tac" : tactic
-macro_rules
-  | `(tactic| quiet_tac) => `(tactic| first
-      | exact Quiet.refl _
-      | exact quiet_defStmt _ _ _ _
-      | exact quiet_closeTxn' _ _ rfl
-      | exact quiet_inTxn _ _ (quiet_push _ _)
-      | exact quiet_inTxn _ _ (Quiet.of_eq rfl)
-      | exact quiet_modify_dying _ _
-      | exact quiet_map_dying _
-      | exact quiet_map_off _
-      | exact quiet_unlistenStmt _ _
-      | exact quiet_sampleStmt _ _
-      | exact quiet_forceStmt _ _
-      | exact quiet_sloopCloseStmt _ _ _
-      | exact quiet_cloopCloseStmt _ _ _
-      | exact quiet_lazyFoldStmt _ _ _ _ _ _
-      | exact quiet_switchLateStmt _ _ _ _ _
-      | exact quiet_switchLateCStmt _ _ _ _ _
-      | exact quiet_lateListenStmt _ _ _ _ _
-      | exact quiet_handlerListenStmt _ _ _ _
-      | exact quiet_lateHoldStmt _ _ _ _ _
-      | exact quiet_lateLoopStmt _ _ _ _ _
-      | exact quiet_routeLateStmt _ _ _ _ _
-      | (split <;> quiet_tac))
+theorem stmt_drop (st : St) (x : String) : stmt st ["drop", x] =
+    (match st.find x with
+    | none | some .dropped | some (.txn _) | some .post => (st, "skip")
+    | some (.listener id) =>
+      let st := { st with lis := st.lis.modify id fun l => if l.weak then { l with dying := true } else l }
+      (st.bind x .dropped, "ok")
+    | some _ => (st.bind x .dropped, "ok")) := by unfold stmt; rfl
+
+theorem quiet_stmt_drop (st : St) (x : String) : Quiet st.lis (stmt st ["drop", x]).1.lis := by
+  rw [stmt_drop]
+  split <;> first | exact Quiet.refl _ | exact quiet_modify_dying _ _
+
+theorem stmt_send (st : St) (l x : String) : stmt st ["send", l, x] =
+    (match num x, st.find l with
+      | some v, some (.ent i k) =>
+        if k == .ss || k == .cs then
+          st.inTxn fun st =>
+            { st with sends := addSend (st.sp.coalescer i) st.sends i v }
+        else (st, "skip")
+      | _, _ => (st, "skip")) := by unfold stmt; rfl
+
+theorem quiet_stmt_send (st : St) (l x : String) : Quiet st.lis (stmt st ["send", l, x]).1.lis := by
+  rw [stmt_send]
+  split
+  · split
+    · exact quiet_inTxn _ _ (Quiet.of_eq rfl)
+    · exact Quiet.refl _
+  · exact Quiet.refl _
+
+theorem stmt_listen (st : St) (l x : String) : stmt st ["listen", l, x] =
+    (if !st.fresh l then (st, "skip") else
+      let tgt : Option (Nat × Bool) := (st.stream x).map (·, false) |>.orElse fun _ => (st.cell x).map (·, true)
+      match tgt with
+      | none => (st, "skip")
+      | some (t, isC) =>
+        st.inTxn fun st =>
+          let id := st.lis.size
+          let st := { st with lis := st.lis.push { name := l, target := t, isCell := isC, regTxn := st.sp.txn, weak := "listen" == "listenweak" } }
+          st.bind l (.listener id)) := by unfold stmt; rfl
+
+theorem quiet_stmt_listen (st : St) (l x : String) : Quiet st.lis (stmt st ["listen", l, x]).1.lis := by
+  rw [stmt_listen]
+  split
+  · exact Quiet.refl _
+  · dsimp only
+    split
+    · exact Quiet.refl _
+    · exact quiet_inTxn _ _ (quiet_push _ _)
+
+theorem stmt_listenweak (st : St) (l x : String) : stmt st ["listenweak", l, x] =
+    (if !st.fresh l then (st, "skip") else
+      let tgt : Option (Nat × Bool) := (st.stream x).map (·, false) |>.orElse fun _ => (st.cell x).map (·, true)
+      match tgt with
+      | none => (st, "skip")
+      | some (t, isC) =>
+        st.inTxn fun st =>
+          let id := st.lis.size
+          let st := { st with lis := st.lis.push { name := l, target := t, isCell := isC, regTxn := st.sp.txn, weak := "listenweak" == "listenweak" } }
+          st.bind l (.listener id)) := by unfold stmt; rfl
+
+theorem quiet_stmt_listenweak (st : St) (l x : String) : Quiet st.lis (stmt st ["listenweak", l, x]).1.lis := by
+  rw [stmt_listenweak]
+  split
+  · exact Quiet.refl _
+  · dsimp only
+    split
+    · exact Quiet.refl _
+    · exact quiet_inTxn _ _ (quiet_push _ _)
+
+theorem stmt_clone (st : St) (l x : String) : stmt st ["clone", l, x] =
+    (if !st.fresh l then (st, "skip") else
+      match st.find x with
+      | some (.ent i .sl) => (st.bind l (.ent i .s), "ok")
+      | some (.ent i .cl) => (st.bind l (.ent i .c), "ok")
+      | some (.ent i k) => (st.bind l (.ent i k), "ok")
+      | _ => (st, "skip")) := by unfold stmt; rfl
+
+theorem quiet_stmt_clone (st : St) (l x : String) : Quiet st.lis (stmt st ["clone", l, x]).1.lis := by
+  rw [stmt_clone]
+  split
+  · exact Quiet.refl _
+  · split <;> exact Quiet.refl _
+
+theorem stmt_listenkill (st : St) (l x victim : String) : stmt st ["listenkill", l, x, victim] =
+    (if !st.fresh l then (st, "skip") else
+    (match st.stream x, st.find victim with
+     | some t, some (.listener v) =>
+       st.inTxn fun st =>
+         let id := st.lis.size
+         let st := { st with lis := st.lis.push { name := l, target := t, isCell := false, regTxn := st.sp.txn, weak := false, kills := some v } }
+         st.bind l (.listener id)
+     | _, _ => (st, "skip"))) := by unfold stmt; rfl
+
+theorem quiet_stmt_listenkill (st : St) (l x victim : String) :
+    Quiet st.lis (stmt st ["listenkill", l, x, victim]).1.lis := by
+  rw [stmt_listenkill]
+  split
+  · exact Quiet.refl _
+  · split
+    · exact quiet_inTxn _ _ (quiet_push _ _)
+    · exact Quiet.refl _
+
+theorem stmt_topen (st : St) (t : String) : stmt st ["topen", t] =
+    (if !st.fresh t then (st, "skip") else
+    (({ st with depth := st.depth + 1, txOpen := (t, true) :: st.txOpen }).bind t (.txn true), "ok")) := by
+  unfold stmt; rfl
+
+theorem quiet_stmt_topen (st : St) (t : String) : Quiet st.lis (stmt st ["topen", t]).1.lis := by
+  rw [stmt_topen]
+  split <;> exact Quiet.refl _
+
+theorem stmt_tclose (st : St) (t : String) : stmt st ["tclose", t] =
+    (match st.find t with
+    | some (.txn true) =>
+      if (st.txOpen.find? (·.1 == t)).map (·.2) == some true then
+        let st := { st with txOpen := st.txOpen.map fun p => if p.1 == t then (t, false) else p, depth := st.depth - 1 }
+        if st.depth == 0 then closeTxn st else (st, "ok")
+      else (st, "ok")
+    | _ => (st, "skip")) := by unfold stmt; rfl
+
+theorem quiet_stmt_tclose (st : St) (t : String) : Quiet st.lis (stmt st ["tclose", t]).1.lis := by
+  rw [stmt_tclose]
+  split
+  · split
+    · dsimp only
+      split
+      · exact quiet_closeTxn' _ _ rfl
+      · exact Quiet.refl _
+    · exact Quiet.refl _
+  · exact Quiet.refl _
+
+theorem stmt_tdrop (st : St) (t : String) : stmt st ["tdrop", t] =
+    (match st.find t with
+    | some (.txn true) =>
+      let wasOpen := (st.txOpen.find? (·.1 == t)).map (·.2) == some true
+      let st := st.bind t (.txn false)
+      if wasOpen then
+        let st := { st with txOpen := st.txOpen.map fun p => if p.1 == t then (t, false) else p, depth := st.depth - 1 }
+        if st.depth == 0 then closeTxn st else (st, "ok")
+      else (st, "ok")
+    | _ => (st, "skip")) := by unfold stmt; rfl
+
+theorem quiet_stmt_tdrop (st : St) (t : String) : Quiet st.lis (stmt st ["tdrop", t]).1.lis := by
+  rw [stmt_tdrop]
+  split
+  · dsimp only
+    split
+    · split
+      · exact quiet_closeTxn' _ _ rfl
+      · exact Quiet.refl _
+    · exact Quiet.refl _
+  · exact Quiet.refl _
+
+theorem stmt_lazy (st : St) (l x : String) : stmt st ["lazy", l, x] =
+    (if !st.fresh l then (st, "skip") else
+      match st.cell x with
+      | some c => (st.bind l (.lazy (st.sp.val c) (some c)), "ok")
+      | none => (st, "skip")) := by unfold stmt; rfl
+
+theorem quiet_stmt_lazy (st : St) (l x : String) : Quiet st.lis (stmt st ["lazy", l, x]).1.lis := by
+  rw [stmt_lazy]
+  split
+  · exact Quiet.refl _
+  · split <;> exact Quiet.refl _
 
 /-- the statement kinds covered by the lifted theorems (the top-level match of `stmt` is too large for `split`) -/
 inductive Covered : List String → Prop
@@ -280,6 +417,21 @@ inductive Covered : List String → Prop
   | hold (x s k : String) : Covered ["hold", x, s, k]
   | sample (c : String) : Covered ["sample", c]
   | handlerlisten (l t s : String) : Covered ["handlerlisten", l, t, s]
+  | drop (x : String) : Covered ["drop", x]
+  | send (l x : String) : Covered ["send", l, x]
+  | listen (l x : String) : Covered ["listen", l, x]
+  | listenweak (l x : String) : Covered ["listenweak", l, x]
+  | clone (l x : String) : Covered ["clone", l, x]
+  | listenkill (l x v : String) : Covered ["listenkill", l, x, v]
+  | topen (t : String) : Covered ["topen", t]
+  | tclose (t : String) : Covered ["tclose", t]
+  | tdrop (t : String) : Covered ["tdrop", t]
+  | force (z : String) : Covered ["force", z]
+  | lazy (l x : String) : Covered ["lazy", l, x]
+  | merge (x a b op : String) : Covered ["merge", x, a, b, op]
+  | snapshot (x s c op : String) : Covered ["snapshot", x, s, c, op]
+  | switchs (x sel : String) (cands : List String) : Covered ("switchs" :: x :: sel :: cands)
+  | switchc (x sel : String) (cands : List String) : Covered ("switchc" :: x :: sel :: cands)
 
 set_option maxHeartbeats 4000000 in
 /-- every covered statement only extends the listener array and never re-activates a listener -/
@@ -294,6 +446,21 @@ theorem quiet_stmt (st : St) (ws : List String) (h : Covered ws) : Quiet st.lis 
   case hold x s k => unfold stmt; exact quiet_defStmt _ _ _ _
   case sample c => unfold stmt; exact quiet_sampleStmt _ _
   case handlerlisten l t s => unfold stmt; exact quiet_handlerListenStmt _ _ _ _
+  case drop x => exact quiet_stmt_drop _ _
+  case send l x => exact quiet_stmt_send _ _ _
+  case listen l x => exact quiet_stmt_listen _ _ _
+  case listenweak l x => exact quiet_stmt_listenweak _ _ _
+  case clone l x => exact quiet_stmt_clone _ _ _
+  case listenkill l x v => exact quiet_stmt_listenkill _ _ _ _
+  case topen t => exact quiet_stmt_topen _ _
+  case tclose t => exact quiet_stmt_tclose _ _
+  case tdrop t => exact quiet_stmt_tdrop _ _
+  case force z => unfold stmt; exact quiet_forceStmt _ _
+  case lazy l x => exact quiet_stmt_lazy _ _ _
+  case merge x a b op => unfold stmt; exact quiet_defStmt _ _ _ _
+  case snapshot x s c op => unfold stmt; exact quiet_defStmt _ _ _ _
+  case switchs x sel cands => unfold stmt; exact quiet_defStmt _ _ _ _
+  case switchc x sel cands => unfold stmt; exact quiet_defStmt _ _ _ _
 
 /-- one line of a script: a covered statement, `begin`, or `end` (inner, or outermost: the transaction closes) -/
 inductive Step : St → St → Prop
